@@ -700,3 +700,38 @@ def assume_truth(x: Node, expr: str) -> Optional[bool]:
         return None
 
     return look(x.ast, bool(x.taken))
+
+
+def iteration_skips(cfg: CFG, loop: ast.For, pred: Callable[[Node], bool]) -> Optional[List[Node]]:
+    """A path through one iteration of `loop` (from its head into the body and back to the head, or out of the loop through a
+    `break`) that passes no node satisfying `pred`; None when every iteration passes one.  Paths that leave by raising are not
+    iterations that "end" and are not reported."""
+    it = [x for x in cfg.nodes if x.kind == "iter" and x.ast is loop]
+    if not it:
+        raise AnalysisError("cfg", "loop head not found in CFG")
+    it = it[0]
+    inside = {id(n) for st in loop.body for n in ast.walk(st)}
+    through = {x.id for x in cfg.nodes if x.ast is not None and pred(x)}
+    starts = []
+    for s in cfg.succ[it.id]:
+        nd = cfg.nodes[s]
+        if nd.kind == "assume" and nd.taken:
+            starts.extend(cfg.succ[s])
+        elif nd.ast is not None and id(nd.ast) in inside:
+            starts.append(s)
+    if not starts:
+        raise AnalysisError("cfg", "loop body entry not found in CFG")
+    for s in starts:
+        if s in through:
+            continue
+        # back to the head
+        w = cfg.path(s, it.id, through)
+        if w is not None:
+            return w
+        # or out through a break: first node after the loop reached from inside the body without passing the head
+        for x in cfg.nodes:
+            if x.kind == "stmt" and isinstance(x.ast, ast.Break) and id(x.ast) in inside:
+                w = cfg.path(s, x.id, through | {it.id})
+                if w is not None and x.id not in through:
+                    return w
+    return None
